@@ -474,6 +474,12 @@ def ext(e: ast.AST, env: Env):
             if bty != ("list", "Nat") or nty != "Nat":
                 raise Unsupported("np.pad of something that is not a label vector")
             return f"({bt} ++ List.replicate {n_} 0)", ("list", "Nat")
+        if ast.unparse(e.func) == "np.concatenate" and len(e.args) == 1 and not e.keywords and isinstance(e.args[0], ast.List) \
+                and len(e.args[0].elts) == 2:
+            (at, aty), (bt, bty) = ext(e.args[0].elts[0], env), ext(e.args[0].elts[1], env)
+            if aty != ("list", "Nat") or bty != ("list", "Nat"):
+                raise Unsupported("np.concatenate of something that is not a pair of label vectors")
+            return f"({at} ++ {bt})", ("list", "Nat")
         raise Unsupported(f"call {src[:80]}")
     raise Unsupported(f"expression {ast.unparse(e)[:80]}")
 
